@@ -457,10 +457,14 @@ def register_numpy():
             except (TypeError, UnicodeDecodeError):
                 return normalize_object(x)
         else:
+            # Hash the elements in logical (C) order. The order they have in
+            # memory (order="K") is not determined by dtype, shape and values:
+            # a C-ordered array and the transpose of another one can share it,
+            # and it changes when a non-contiguous array is copied or pickled.
             try:
-                data = hash_buffer_hex(x.ravel(order="K").view("i1"))
+                data = hash_buffer_hex(x.ravel(order="C").view("i1"))
             except (BufferError, AttributeError, ValueError):
-                data = hash_buffer_hex(x.copy().ravel(order="K").view("i1"))
+                data = hash_buffer_hex(x.copy().ravel(order="C").view("i1"))
         return (data, x.dtype, x.shape)
 
     @normalize_token.register(np.memmap)
